@@ -122,7 +122,7 @@ def _is_comment(line):
     regions behind a comment character; those lines are not comments.
     """
     return (line.startswith('#')
-            and not line.startswith(('# text(', '# composite(')))
+            and not line.lower().startswith(('# text(', '# composite(')))
 
 
 def _parse_raw_data(region_str):
@@ -178,8 +178,7 @@ def _parse_raw_data(region_str):
             continue
 
         # skip comments
-        if (line.startswith('#')
-                and not line.startswith(('# text(', '# composite('))):
+        if _is_comment(line):
             continue
 
         original_line = line  # used to parse text and tag fields (keep case)
